@@ -535,11 +535,25 @@ def _r5_shape_agreement(run):
     bad = None
     n = 0
     unknown = None
-    for size in (2, 3, 4):
+    # the HDU's own shape and the number of WCS axes, where the code distinguishes them (a WCS with more axes than the array
+    # pads the shape with leading 1s): the array may have fewer axes than the mask has entries
+    both = list(_subterms(S)) + list(_subterms(dshape))
+    H = [x for x in both if x[0] == "attr" and x[2] == "shape" and "data" not in show(x[1])[-6:]]
+    NAX = [x for x in both if x[0] == "attr" and x[2] == "naxis"]
+    H = H[0] if len(set(H)) == 1 else None
+    NAX = NAX[0] if len(set(NAX)) == 1 else None
+    for size, ndim in [(sz, sz) for sz in (2, 3, 4)] + ([(3, 2), (4, 2), (4, 3)] if (H is not None and NAX is not None and S != H) else []):
         for keep in itertools.combinations(range(size), 2):
             kvec = tuple(i in keep for i in range(size))
             svec = (2, 3, 5, 7)[:size]
             env = {K: kvec, S: svec}
+            if ndim != size:
+                env = {K: kvec, H: (3, 5, 7)[:ndim], NAX: size}
+                svec = teval(S, env)
+                if svec is UNKNOWN or not isinstance(svec, tuple) or len(svec) != size:
+                    unknown = "the padded shape %s for a %d-d array under a %d-axis WCS" % (show(S)[:60], ndim, size)
+                    continue
+                env[S] = svec
             if size > 2:
                 force(dshape, env)
                 force(data, env)
